@@ -162,6 +162,32 @@ pub fn run(ctx: &Ctx) -> Report {
             }
         }
     }
+    // a long attribute (value of 250..=260, 508..=516, 763 bytes; typed text and raw) in front of,
+    // between and behind the types the required list names
+    for len in (250usize..=260).chain(508..=516).chain([763]) {
+        for (lt, sup) in [(0x8022u16, vec![]), (0x0015, vec![0x0015u16, 0x0006, 0x0014]), (0xC0DE, vec![0x0006, 0x0014])] {
+            let long = vec![b'n'; len];
+            for order in 0..3u8 {
+                let mut b = wire::encode_header(0, 1, tid, 0);
+                let parts: [(u16, &[u8]); 3] = [(0x0006, b"user"), (lt, &long), (0x0014, b"realm")];
+                let idx: [usize; 3] = match order {
+                    0 => [1, 0, 2],
+                    1 => [0, 1, 2],
+                    _ => [0, 2, 1],
+                };
+                for i in idx {
+                    wire::append_raw(&mut b, parts[i].0, parts[i].1);
+                }
+                wire::append_mi(&mut b, b"k");
+                wire::append_fp(&mut b);
+                let mut sup = sup.clone();
+                sup.extend([0x0006, 0x0014, 0x0008]);
+                for req in [vec![0x0006u16, 0x0014], vec![0x0014], vec![0x0008], vec![0x8028], vec![0x0006, 0x0014, 0x0008, 0x8028], vec![0x0024]] {
+                    many.push(Case::new("police", b.clone()).text(&[&hexl(&sup), &hexl(&req)]));
+                }
+            }
+        }
+    }
     let acc_many = crate::props::sweep(many.into_par_iter(), judge);
     // the response constructors called directly: unknown_attributes(request, list) for lists of
     // 0..=400 types (distinct, repeated, optional types included) and bad_request(request)
@@ -186,7 +212,7 @@ pub fn run(ctx: &Ctx) -> Report {
     Report {
         acc,
         exhaustive: true,
-        rule: "request messages whose attribute lists are all sequences (duplicates included) up to the depth over {SOFTWARE, USERNAME, PRIORITY, 0x7F00, 0xFF00, MESSAGE-INTEGRITY, MESSAGE-INTEGRITY-SHA256, FINGERPRINT} that the reference decoder accepts x methods {0,1,0xFFF}; type universe of 9 (those 8 + USE-CANDIDATE, never present); per message: supported = any subset of the present types + none/all of the absent ones, required = any subset of the present types + none/one/all of the absent ones; for messages of <= 2 attributes (method 1) all 2^9 x 2^9 supported x required subsets; every third configuration repeated with reversed lists whose entries are duplicated; requests with n = 1..=400 unsupported comprehension-required attributes (distinct / one type repeated / optional / mixed); requests with n = 1..=64 acceptable attributes and the required list naming the first / middle / last / all of them or an absent type; unknown_attributes(request, list) called directly with lists of 0..=400 and 1000 types (distinct / repeating / mixed) and bad_request(request), 3 methods; comprehension_required for all 65536 types; distinct_nontrivial = request messages".into(),
+        rule: "request messages whose attribute lists are all sequences (duplicates included) up to the depth over {SOFTWARE, USERNAME, PRIORITY, 0x7F00, 0xFF00, MESSAGE-INTEGRITY, MESSAGE-INTEGRITY-SHA256, FINGERPRINT} that the reference decoder accepts x methods {0,1,0xFFF}; type universe of 9 (those 8 + USE-CANDIDATE, never present); per message: supported = any subset of the present types + none/all of the absent ones, required = any subset of the present types + none/one/all of the absent ones; for messages of <= 2 attributes (method 1) all 2^9 x 2^9 supported x required subsets; every third configuration repeated with reversed lists whose entries are duplicated; requests with n = 1..=400 unsupported comprehension-required attributes (distinct / one type repeated / optional / mixed); requests with an attribute of 250..=260 / 508..=516 / 763 bytes in front of, between and behind the required types; requests with n = 1..=64 acceptable attributes and the required list naming the first / middle / last / all of them or an absent type; unknown_attributes(request, list) called directly with lists of 0..=400 and 1000 types (distinct / repeating / mixed) and bad_request(request), 3 methods; comprehension_required for all 65536 types; distinct_nontrivial = request messages".into(),
         bounds: json!({"messages": n_msgs, "depth": depth, "configurations_per_message": "<= 2^k * 2 * 2^k * 3 for k present universe types; 262144 for messages of <= 2 attributes"}),
         assumptions: vec!["UNKNOWN-ATTRIBUTES is compared modulo repeats (the statement does not say whether a type present twice is listed twice)".into()],
         ..Default::default()
